@@ -80,10 +80,11 @@ MANIFEST_NOTE = ('Trusted: NumPy, npstructures run-length arrays (observed via t
                  'engine/observe.py, models/intervals.py + models/genome_multi.py (plain per-base Python). Sizes above 3 '
                  'and more than two intervals per chromosome are not explored.')
 
-PAIRS_PRIMARY = [('chr1', 'chr10'), ('chr10', 'chr1'), ('chr1', 'chr1_alt'), ('chr1_alt', 'c')]
-TRIPLES_PRIMARY = [('chr1', 'chr10', 'c'), ('c', 'chr10', 'chr1'), ('chr1', 'chr1_alt', 'c'), ('chr1_alt', 'c', 'chr10')]
-TRIPLES_FULLPLAN = [('chr10', 'chr1', 'c'), ('c', 'chr1_alt', 'chr1')]
-QUADS = [('chr1', 'chr10', 'chr1_alt', 'c'), ('c', 'chr1_alt', 'chr10', 'chr1')]
+PAIRS_PRIMARY = [('chr1', 'chr10'), ('chr1_alt', 'c')]
+TRIPLES_QUICK = [('chr1', 'chr10', 'c'), ('chr1', 'chr1_alt', 'c')]
+TRIPLES_PRIMARY = [('chr1', 'chr10', 'c'), ('chr1', 'chr1_alt', 'c')]          # thorough: full menu
+TRIPLES_FULLPLAN = [('c', 'chr1_alt', 'chr1')]                                   # thorough: every operation x argument
+QUADS = [('chr1', 'chr10', 'chr1_alt', 'c')]
 SIZES = (1, 2, 3)
 # rough number of bionumpy calls per set-combination (all strand patterns and orders), only used to size shards
 CALLS = {('quick', 'full'): 95, ('quick', 'std'): 70, ('quick', 'thin'): 30,
@@ -102,10 +103,10 @@ def genome_list(tier, seed):
         out.append(((n,), 'full', 'full', None))
     if tier == 'quick':
         for p in pairs:
-            out.append((p, 'full' if p in PAIRS_PRIMARY else 'small', 'std', None))
-        for t in TRIPLES_PRIMARY:
+            out.append((p, 'full', 'std', None) if p in PAIRS_PRIMARY else (p, 'small', 'thin', None))
+        for t in TRIPLES_QUICK:
             out.append((t, 'small', 'thin', None))
-        rest = [t for t in triples if t not in TRIPLES_PRIMARY]
+        rest = [t for t in triples if t not in TRIPLES_QUICK]
         out.append((rest[seed % len(rest)], 'small', 'thin', seed % 3 + 1))       # extension slice, rotated by the seed
     else:
         for p in pairs:
@@ -134,7 +135,7 @@ def bounds(tier, seed):
               'genomes': [{'names': list(n), 'menu': m, 'plan': p, 'first_size_only': f} for n, m, p, f in genome_list(tier, seed)]}
     if tier == 'quick':
         common['strand_patterns'] = ['+-', '-+']
-        common['extension_slice'] = 'one further 3-chromosome name order, index seed % 20, first size = seed % 3 + 1'
+        common['extension_slice'] = 'one further 3-chromosome name order, index seed % 22, first size = seed % 3 + 1'
         common['seed'] = seed
     else:
         common['strand_patterns'] = list(M.STRAND_PATTERNS)
